@@ -537,9 +537,40 @@ pub fn parse_choice_text(input: &str) -> Result<ParsedChoiceText, CompilerError>
         .and_then(|(text, _)| text.chars().last())
         .is_some_and(char::is_whitespace);
     let (trimmed, inline_target) = split_inline_choice_divert(trimmed)?;
+    // `text ->->`: the tunnel return ends the choice's output, it is not part of its text
+    let with_tunnel_return = trimmed;
+    let (trimmed, tunnel_return) = match trimmed.strip_suffix("->->") {
+        Some(text) if inline_target.is_none() && !text.trim().is_empty() => (text.trim_end(), true),
+        _ => (trimmed, false),
+    };
     let (start_text, start_tags) = split_text_and_tags(trimmed)?;
     // Without brackets the whole text (tags included) is both the choice and its output.
     let selected_tags = start_tags.clone();
+    if tunnel_return {
+        return Ok(ParsedChoiceText {
+            display_text: start_text.clone(),
+            // (the output keeps the return on the text's line: text, `->->`, line break; with tags
+            // the return has to stand behind them, on a line of its own)
+            selected_text: Some(if start_tags.is_empty() {
+                with_tunnel_return.to_owned()
+            } else {
+                start_text.clone()
+            }),
+            start_text: start_text.clone(),
+            choice_only_text: String::new(),
+            has_start_content: !start_text.is_empty(),
+            has_choice_only_content: false,
+            inline_target: None,
+            inline_body_nodes: if start_tags.is_empty() {
+                Vec::new()
+            } else {
+                parse_divert_line("->->")?
+            },
+            start_tags,
+            choice_only_tags: Vec::new(),
+            selected_tags,
+        });
+    }
     Ok(ParsedChoiceText {
         display_text: start_text.clone(),
         selected_text: if start_text.is_empty() {
